@@ -377,6 +377,23 @@ def _is_hint_cmp(a, c, hints):
     return False
 
 
+def check_entry_points(ctx, cfg):
+    """C17.I: the rules above judge `Serialize::serialize`, `Deserialize::deserialize` and `GAVisitor::visit_seq`. Every other way serde can be
+    made to read or write a GenericArray must not exist unjudged: the two impls override nothing else (serde's provided `deserialize_in_place`
+    goes through `deserialize`), and no other type of the crate implements `Visitor::visit_seq`."""
+    rule = "C17.I"
+    db = ctx.db(cfg)
+    for imp in db.impls:
+        tr = imp.get("trait", "")
+        if tr in ("serde::Serialize", "serde::Deserialize") and imp["self"].get("k") == "adt" and imp["self"]["def"] == "GenericArray":
+            names = sorted(x["name"] for x in imp["items"])
+            want = ["serialize"] if tr == "serde::Serialize" else ["deserialize"]
+            ctx.ob(rule, db.impl_key(imp), names == want, "%s for GenericArray overrides %s (judged: %s; any other override is an entry point no rule has looked at)" % (tr.split("::")[-1], names, want), at=imp["at"], cfg=cfg)
+        if tr == "serde::de::Visitor" and any(x["name"] == "visit_seq" for x in imp["items"]):
+            known = imp["self"].get("k") == "adt" and imp["self"]["def"].split("::")[-1] == "GAVisitor"
+            ctx.ob(rule, db.impl_key(imp), known, "sequence visitor %s: %s" % (imp["self_s"], "the one judged by C17.V" if known else "not known to the rules (its visit_seq decides which inputs are accepted)"), at=imp["at"], cfg=cfg, frozen=False)
+
+
 def check(ctx):
     ctx.explanation = EXPLANATION
     ctx.trusted = ["serde's data model: a tuple of N elements carries no length prefix; SeqAccess / Serializer implementations honour their contracts"]
@@ -390,5 +407,6 @@ def check(ctx):
         check_serialize(ctx, cfg)
         check_deserialize(ctx, cfg)
         check_visit_seq(ctx, cfg)
+        check_entry_points(ctx, cfg)
         from . import c04
         c04.check_finish_window(ctx, cfg, "C17.F")
